@@ -1261,3 +1261,28 @@ def type_count(t):
     if t[0] == 'struct':
         return sum(type_count(x) for x in t[1])
     return 1
+
+
+def enumerators(module):
+    """name -> value of every C enumerator visible in the unit's debug info"""
+    out = {}
+    for txt in module.md.values():
+        mm = re.match(r'!DIEnumerator\(name: "([^"]+)", value: (-?\d+)', txt)
+        if mm:
+            out[mm.group(1)] = int(mm.group(2))
+    return out
+
+
+def reg_var_names(fn):
+    """SSA register -> source variable name, from llvm.dbg.value intrinsics"""
+    out = {}
+    m = fn.module
+    for b in fn.blocks.values():
+        for i in b.insns:
+            if i.op == 'dbg' and 'var' in i.extra:
+                v = i.extra['val']
+                if isinstance(v, tuple) and len(v) >= 2 and v[0] == 'reg':
+                    d = m.md_fields(i.extra['var'])
+                    if d and 'name' in d:
+                        out[v[1]] = d['name'].strip('"')
+    return out
